@@ -84,6 +84,20 @@ pub(crate) mod kani_verif {
         Ok(s)
     }
 
+    /// the serialisers of the parts are checked against RFC 8554 in c07_lms_sign_* / c11_keygen_*; HSS assembly only concatenates
+    /// their results, so they are abstracted by short fixed encodings (parametricity in the encoders)
+    pub fn stub_lms_sig_to_bytes<H: HashChain>(this: &LmsSignature<H>) -> ArrayVec<[u8; crate::constants::MAX_LMS_SIGNATURE_LENGTH]> {
+        let mut r = ArrayVec::new();
+        r.extend_from_slice(&this.lms_leaf_identifier);
+        r.extend_from_slice(&this.lmots_signature.signature_randomizer.as_slice()[..8]);
+        r
+    }
+    pub fn stub_lms_pub_to_bytes<H: HashChain>(this: &LmsPublicKey<H>) -> ArrayVec<[u8; crate::constants::MAX_LMS_PUBLIC_KEY_LENGTH]> {
+        let mut r = ArrayVec::new();
+        r.extend_from_slice(&this.lms_tree_identifier[..4]);
+        r.extend_from_slice(&this.key.as_slice()[..8]);
+        r
+    }
     fn any_lms_sig() -> LmsSignature<H> {
         let mut s = LmsSignature::<H>::default();
         s.lms_leaf_identifier = kani::any();
@@ -192,6 +206,8 @@ pub(crate) mod kani_verif {
             #[kani::stub(<[u8; 32] as tinyvec::Array>::default, fast_default)]
             #[kani::stub(crate::hss::reference_impl_private_key::generate_signature_randomizer, stub_randomizer)]
             #[kani::stub(crate::lms::signing::LmsSignature::sign, stub_lms_sign)]
+            #[kani::stub(crate::lms::signing::LmsSignature::to_binary_representation, stub_lms_sig_to_bytes)]
+            #[kani::stub(crate::lms::definitions::LmsPublicKey::to_binary_representation, stub_lms_pub_to_bytes)]
             #[kani::unwind(40)]
             fn $name() {
                 check_hss_sign::<$l>();
